@@ -19,6 +19,8 @@ CHECKS["C19"] = ("model_checking", "Screen engine on terminals from 1x1, line wi
 CHECKS["C06"] = ("model_checking", "Screen engine on the four ways of being hidden (hidden target, Term over a pipe, member of a hidden MultiProgress, removed member): SilentOK (no TermLike output call, no byte on the pipe) on every call of every history up to depth 4-5, GetOK (getters equal the contract's logical state, the same a visible bar is held to).", "4 C06", SCREEN_NOTE, T)
 CHECKS["C07"] = ("model_checking", "TLC enumerates every history of depth 3-4 over the u64 boundary arguments (plus random depth 12); the real getters, fraction() and the rendered {pos} {len} {percent} are checked after every call against Logical.tla on exact multi-limb u64 arithmetic (U64.tla). Sequential clause; the concurrent-increment clause is covered by C08's atomic-step model when built.", "4 C07", "Trusted base: TLC, U64.tla limb arithmetic (sanity-checked against known values), harness limb encoding.", "TLA+ contract on exact u64 limbs + TLC-generated histories replayed on the code + TLC trace monitor")
 CHECKS["C18"] = ("fault_enumeration", "Every history of the family alphabets x every fault index k in {1,2,3,5,8}/{1,2,4,7} x {once, sticky}: the k-th terminal call after the injection point fails. NoPanic (process aborts included, each history runs in a forked child), GetOK (logical state as without the fault; later calls on the same and sibling bars work), ErrReported.", "4 C18", SCREEN_NOTE, "TLC-enumerated histories with injected TermLike failures replayed on the code; TLC trace monitor (fault mode)")
+CHECKS["C05"] = ("model_checking", "TLC checks the bucket algorithm (Limiter.tla) against the interval form of the window and freshness laws exhaustively for burst 3 (it found the banked-remainder counterexample, since repaired); its behaviours (transition cover for bursts 20/10, all short gap sequences lifted to the real bursts, random walks, steady saturating runs) are replayed under the virtual clock at rates 1..255 and every request is judged by Trace_Throttle in the literal rate form on exact ns arithmetic: WindowOK, FreshOK, LatestOK; standalone, MultiProgress and the position gate of inc.", "4 C05", "Trusted base: virtual clock by symbol interposition, U64.tla arithmetic, TLC.", "TLA+ model of the token buckets checked by TLC + behaviours replayed on the code under a virtual clock + TLC trace monitor")
+CHECKS["C09"] = ("model_checking", "TLC enumerates timed histories (gaps 1 ms..3 days, steps 1..10^9, resets, backwards seeks, stalls) with a query after each step; the real per_sec/eta/elapsed/duration are logged as exact integers and Trace_Estimator evaluates the laws of EstimatorLaws.tla at every query (finite, steady = true rate within 1e-6, upper bound, decay, forgetfulness against a fresh twin, eta = remaining/rate, duration = elapsed + eta).", "4 C09", "Trusted base: the harness projection of f64 to 16 significant digits; tolerance 1e-6; the exponential weighting itself is not modelled.", "TLA+ law module on exact naturals + TLC-generated timed histories replayed under a virtual clock + TLC trace monitor")
 def main():
     hooks = {"guard": "indicatif_verif", "enable": "harness/.cargo/config.toml passes --cfg indicatif_verif to rustc for the path dependency on /repo",
              "baseline_off_cmd": "cd /repo && cargo test --workspace --no-fail-fast --offline", "source_commits": [], "add_only": True}
